@@ -38,7 +38,7 @@ Inductive robs :=
 | RAndF (old opnd : Z)
 | RCaswF (seen new : Z) (ok : bool)
 | RCasF (seen new : Z) (ok : bool)
-| RWu (v : Z)
+| RWu (v : Z) (old : Z)        (* old: the value the same thread loaded just before (set_bit / clear_bit), or -1 *)
 | RXp (old : Z)
 | RWp (new : Z)
 | RXh (off old : Z)
@@ -82,7 +82,7 @@ Definition mabs_one (self : Z) (a : ast) (e : event) (next : option event) : rob
     (if k =? DV_XCHG then (if eb e =? 0 then RXp (ea e) else RWp (eb e))
      else if k =? DV_STORE then RWp (eb e)
      else if (k =? DV_ADD) || (k =? DV_OR) then RWp (rmw_result e) else RBad, a)
-  else if f =? FD_U then (if k =? DV_STORE then (RWu (eb e), a) else (RBad, a))
+  else if f =? FD_U then (if k =? DV_STORE then (RWu (eb e) (if eoff e =? 1 then ea e else -1), a) else (RBad, a))
   else if f =? FD_S then
     let old := ea e in
     let new := if (k =? DV_CAS) || (k =? DV_CASW) || (k =? DV_XCHG) then eb e else rmw_result e in
@@ -140,6 +140,7 @@ Definition fp_act (k : kind) (s s' : src) (a : action) : list fobs :=
 Definition reads_f (k : kind) (o : orc) (p : opc) : bool :=
   match p with
   | OP1 | OP2 | OP3b | OP4b | OCD1 | OCD2 => true
+  | OCD3 => true         (* dx_wakeup(ds, 0, EVENT | BARRIER_COMPLETE): _dispatch_source_wakeup reads the flags under the lock *)
   | OA2 => k_timer k && c_cfg o
   | _ => false
   end.
@@ -147,23 +148,34 @@ Definition footprint (k : kind) (o : orc) (p : opc) (s s' : src) (acts : list ac
   (if reads_f k o p then [FRead] else []) ++ flat_map (fp_act k s s') acts.
 
 Definition fl_is (f : flags) (v : Z) : bool := flags_eqb (dec v) f.
+Definition src_du_is (s : src) (v : Z) : bool :=
+  let '(w, a, n) := du_bits v in Bool.eqb w (du_wlh s) && Bool.eqb a (du_armed s) && Bool.eqb n (du_nd s).
+
+
 
 (* match a footprint against the head of a thread's observation list; f0/f1 = the model's flags before / after the step.
-   Returns the rest of the list and the number of entries consumed. *)
-Fixpoint fmatch (f0 f1 : flags) (fp : list fobs) (q : list robs) (n : Z) (fuel : nat) : option (list robs * Z) :=
+   Returns the rest of the list, the number of entries consumed and the number of entries up to the ANCHOR of the
+   footprint: the observation at which the step takes effect for the other threads = the CAS that changes dq_atomic_flags
+   if the footprint has one, else its first write to one of the other words, else its last observation. *)
+Fixpoint fmatch (s0 : src) (f0 f1 : flags) (fp : list fobs) (q : list robs) (n : Z) (afin afirst : Z) (fuel : nat) : option (list robs * Z * Z) :=
   match fuel with O => None | S fu =>
   match fp with
-  | [] => Some (q, n)
+  | [] => Some (q, n, if negb (afin =? 0) then afin else if negb (afirst =? 0) then afirst else n)
   | x :: fp' =>
       match q with
-      | RSkip :: q' => fmatch f0 f1 fp q' (n + 1) fu
+      | RSkip :: q' => fmatch s0 f0 f1 fp q' (n + 1) afin afirst fu
       | h :: q' =>
-          let ok (b : bool) := if b then fmatch f0 f1 fp' q' (n + 1) fu else None in
+          let ok (b : bool) :=
+            if b then fmatch s0 f0 f1 fp' q' (n + 1) (match x with FFin | FNe => n + 1 | _ => afin end)
+                       (match x with FXp | FXh _ _ | FWu _ _ _ => if afirst =? 0 then n + 1 else afirst | _ => afirst end) fu
+            else None in
           match x, h with
           | FRead, RReadF v true => ok (fl_is f0 v)
-          | FWu w a nd, RWu v => ok (let '(w', a', n') := du_bits v in Bool.eqb w w' && Bool.eqb a a' && Bool.eqb nd n')
-          | FWp0opt, RWp v => if v =? 0 then fmatch f0 f1 fp' q' (n + 1) fu else fmatch f0 f1 fp' q n fu
-          | FWp0opt, _ => fmatch f0 f1 fp' q n fu
+          | FWu w a nd, RWu v old =>
+              ok ((let '(w', a', n') := du_bits v in Bool.eqb w w' && Bool.eqb a a' && Bool.eqb nd n') &&
+                  ((old =? -1) || negb (afirst =? 0) || src_du_is s0 old))
+          | FWp0opt, RWp v => if v =? 0 then fmatch s0 f0 f1 fp' q' (n + 1) afin afirst fu else fmatch s0 f0 f1 fp' q n afin afirst fu
+          | FWp0opt, _ => fmatch s0 f0 f1 fp' q n afin afirst fu
           | FFin, RCaswF seen new true => ok (fl_is f0 seen && fl_is f1 new && is_commit (flags_set_and_clear_loop 0 DSF_DELETED (Z.lor DSF_NEEDS_EVENT DSF_CANCEL_WAITER) seen) new)
           | FNe, RCaswF seen new true => ok (fl_is f0 seen && fl_is f1 new)
           | FWake, RFwake => ok true
@@ -173,7 +185,7 @@ Fixpoint fmatch (f0 f1 : flags) (fp : list fobs) (q : list robs) (n : Z) (fuel :
           | FCe k, RCe k' => ok (k =? k')
           | _, _ => None
           end
-      | [] => match x with FWp0opt => fmatch f0 f1 fp' q n fu | _ => None end
+      | [] => match x with FWp0opt => fmatch s0 f0 f1 fp' q n afin afirst fu | _ => None end
       end
   end end.
 
@@ -185,33 +197,40 @@ Record tst := mkT {
   t_api : Z; t_ctx : Z; (* inside which API call of the harness, with which context mark *)
   t_co : Z;             (* callout nesting *)
   t_entered : bool;     (* cancel_and_wait: first loop done *)
-  t_credit : Z          (* observations already consumed ahead of the order *)
+  t_credit : Z;         (* observations already consumed ahead of the order *)
+  t_u : Z;              (* du_state value the manager has just stored ahead of the ds_pending_data write of an event, or -1 *)
+  t_wait : Z; t_base : Z  (* entries to pass before the anchor of the owner's pending phase / its distance from the first *)
 }.
-Record rst := mkR { r_g : gst; r_ts : list tst; r_acts : list (Z * act) }.
+(* r_cfg: a timer configuration is pending (dt_pending_config, set by dispatch_source_set_timer before the round's first mark and
+   consumed by the first registration / configuration): the value of the input c_cfg *)
+Record rst := mkR { r_g : gst; r_ts : list tst; r_acts : list (Z * act); r_cfg : bool }.
 
 Definition upd_t (ts : list tst) (i : nat) (f : tst -> tst) : list tst :=
   (fix go (l : list tst) (j : nat) := match l with [] => [] | x :: r => if Nat.eqb j i then f x :: r else x :: go r (S j) end) ts O.
 Definition set_q (t : tst) (q : list robs) (credit : Z) : tst :=
-  mkT (t_id t) (t_mgr t) q (t_api t) (t_ctx t) (t_co t) (t_entered t) (t_credit t + credit).
-Definition set_api (t : tst) (a c : Z) : tst := mkT (t_id t) (t_mgr t) (t_q t) a c (t_co t) (t_entered t) (t_credit t).
-Definition set_co (t : tst) (c : Z) : tst := mkT (t_id t) (t_mgr t) (t_q t) (t_api t) (t_ctx t) c (t_entered t) (t_credit t).
-Definition set_entered (t : tst) (b : bool) : tst := mkT (t_id t) (t_mgr t) (t_q t) (t_api t) (t_ctx t) (t_co t) b (t_credit t).
+  mkT (t_id t) (t_mgr t) q (t_api t) (t_ctx t) (t_co t) (t_entered t) (t_credit t + credit) (t_u t) (t_wait t) (t_base t).
+Definition set_api (t : tst) (a c : Z) : tst := mkT (t_id t) (t_mgr t) (t_q t) a c (t_co t) (t_entered t) (t_credit t) (t_u t) (t_wait t) (t_base t).
+Definition set_u (t : tst) (u : Z) : tst := mkT (t_id t) (t_mgr t) (t_q t) (t_api t) (t_ctx t) (t_co t) (t_entered t) (t_credit t) u (t_wait t) (t_base t).
+Definition set_wait (t : tst) (w b : Z) : tst := mkT (t_id t) (t_mgr t) (t_q t) (t_api t) (t_ctx t) (t_co t) (t_entered t) (t_credit t) (t_u t) w b.
+Definition set_entered (t : tst) (b : bool) : tst := mkT (t_id t) (t_mgr t) (t_q t) (t_api t) (t_ctx t) (t_co t) b (t_credit t) (t_u t) (t_wait t) (t_base t).
 
 (* one model step *)
 Definition perform (r : rst) (t : Z) (a : act) : option (rst * list action) :=
   match gstep (r_g r) t a with
-  | Some (g', acts) => Some (mkR g' (r_ts r) ((t, a) :: r_acts r), acts)
+  | Some (g', acts) =>
+      let consumed := existsb (fun x => match x with AConfigure => true | AInstall true => k_timer (g_k g') | _ => false end) acts in
+      Some (mkR g' (r_ts r) ((t, a) :: r_acts r) (r_cfg r && negb consumed), acts)
   | None => None
   end.
 
 Definition orc_base : orc := mkO false false true true false false true true.
 Definition orc_with (susp cfg arm ovc : bool) : orc := mkO susp cfg true true arm ovc true true.
-Definition orcs_for (p : opc) : list orc :=
+Definition orcs_for (cfg : bool) (p : opc) : list orc :=
   match p with
   | OA1 => [orc_base; orc_with true false false false]
-  | OA2 => [orc_base; orc_with false true false false; orc_with false true true false]
+  | OA2 => [orc_with false cfg false false; orc_with false cfg true false]
   | OP2 => [orc_with false false false true; orc_base]
-  | OP5 => [orc_with false false true false; orc_base; orc_with true false false false]
+  | OP5 => [orc_with false cfg true false; orc_with false cfg false false; orc_with true cfg false false]
   | _ => [orc_base]
   end.
 
@@ -223,13 +242,13 @@ Definition is_owner_t (g : gst) (t : Z) : bool := match owner g with Some o => o
 (* the lock owner t advances until the phase whose footprint starts at the head of its observation list has been taken;
    phases without footprint are taken on the way; a finished invoke is followed by a new one (the C code re-invokes
    without dropping the lock when the queue was made dirty meanwhile) *)
-Fixpoint adv (fuel : nat) (q : queue) (i : nat) (t : Z) (obs : list robs) (r : rst) : option (rst * list robs * Z) :=
+Fixpoint adv (fuel : nat) (q : queue) (i : nat) (t : Z) (obs : list robs) (r : rst) : option (rst * list robs * Z * Z) :=
   match fuel with O => None | S fu =>
   let g := r_g r in
   if negb (is_owner_t g t) then
     match perform r t (GInvoke q) with Some (r1, _) => adv fu q i t obs r1 | None => None end
   else
-    (fix try (os : list orc) : option (rst * list robs * Z) :=
+    (fix try (os : list orc) : option (rst * list robs * Z * Z) :=
        match os with
        | [] => None
        | o :: os' =>
@@ -239,13 +258,13 @@ Fixpoint adv (fuel : nat) (q : queue) (i : nat) (t : Z) (obs : list robs) (r : r
                let fp := footprint (g_k g) o (o_pc g) (g_s g) (g_s (r_g r1)) acts in
                match fp with
                | [] => match adv fu q i t obs r1 with Some x => Some x | None => try os' end
-               | _ => match fmatch (fl (g_s g)) (fl (g_s (r_g r1))) fp obs 0 (S (length obs)) with
-                      | Some (obs', n) => if 0 <? n then Some (r1, obs', n) else try os'
+               | _ => match fmatch (g_s g) (fl (g_s g)) (fl (g_s (r_g r1))) fp obs 0 0 0 (S (length obs + length fp)) with
+                      | Some (obs', n, an) => if 0 <? n then Some (r1, obs', n, an) else try os'
                       | None => try os'
                       end
                end
            end
-       end) (orcs_for (o_pc g))
+       end) (orcs_for (r_cfg r) (o_pc g))
   end.
 
 (* at the unlock: the owner's remaining phases must have no footprint *)
@@ -266,7 +285,7 @@ Fixpoint adv_unlock (fuel : nat) (t : Z) (r : rst) : option rst :=
                | _ => try os'
                end
            end
-       end) (orcs_for (o_pc g))
+       end) (orcs_for (r_cfg r) (o_pc g))
   end.
 
 Definition cpc_code (p : cwpc) : Z :=
@@ -299,19 +318,26 @@ Definition after_fin (acts : list action) (q : list robs) : option (list robs * 
     match q1 with RFwake :: q2 => Some (q2, n + 1) | _ => None end
   else Some (q, 0).
 
-Definition ctx_of (th : tst) : cctx :=
-  if 0 <? t_co th then CxHandler else if t_ctx th =? 2 then CxTqItem else CxThread.
-
-Definition src_du_is (s : src) (v : Z) : bool :=
-  let '(w, a, n) := du_bits v in Bool.eqb w (du_wlh s) && Bool.eqb a (du_armed s) && Bool.eqb n (du_nd s).
+(* a cancel issued by the thread that holds the drain lock comes from one of the source's own callouts *)
+Definition ctx_of (g : gst) (th : tst) : cctx :=
+  if is_owner_t g (t_id th) then CxHandler else if t_ctx th =? 2 then CxTqItem else CxThread.
 
 (* process the head observation of thread number i; returns the new replay state (the thread's list popped) *)
-Definition exec (i : nat) (th : tst) (r : rst) : option rst :=
+Definition exec0 (i : nat) (th : tst) (r : rst) : option rst :=
   let t := t_id th in let g := r_g r in
   let q := if t_mgr th then QMgr else QTarget in
   let fin (r1 : rst) (q' : list robs) (credit : Z) (f : tst -> tst) : option rst :=
-    Some (mkR (r_g r1) (upd_t (r_ts r1) i (fun x => f (set_q x q' credit))) (r_acts r1)) in
+    Some (mkR (r_g r1) (upd_t (r_ts r1) i (fun x => f (set_q x q' credit))) (r_acts r1) (r_cfg r1)) in
   let same := fun x : tst => x in
+  (* an observation of the lock owner: the phase that produces it; the phase takes effect when the order reaches the
+     anchor of its footprint, the observations before the anchor are passed without effect *)
+  let owner_obs : option rst :=
+    match adv 24 q i t (t_q th) r with
+    | None => None
+    | Some (r1, q', n, an) =>
+        if an <=? 1 then fin r1 q' (n - 1) same
+        else Some (mkR g (upd_t (r_ts r) i (fun x => set_wait x (an - 1) an)) (r_acts r) (r_cfg r))
+    end in
   match t_q th with
   | [] => None
   | h :: rest =>
@@ -338,12 +364,12 @@ Definition exec (i : nat) (th : tst) (r : rst) : option rst :=
         else fin r rest 0 (fun x => set_api x 0 0)
     | RCb k =>
         if is_owner_t g t then
-          match adv 24 q i t (t_q th) r with Some (r1, q', n) => fin r1 q' (n - 1) (fun x => set_co x (t_co x + 1)) | None => None end
+          owner_obs
         else None
     | RCe k =>
-        if k =? 2 then fin r rest 0 (fun x => set_co x (t_co x - 1))
+        if k =? 2 then fin r rest 0 same
         else if is_owner_t g t then
-          match adv 24 q i t (t_q th) r with Some (r1, q', n) => fin r1 q' (n - 1) (fun x => set_co x (t_co x - 1)) | None => None end
+          owner_obs
         else None
     | RLock =>
         if t_api th =? API_CAW then
@@ -354,12 +380,22 @@ Definition exec (i : nat) (th : tst) (r : rst) : option rst :=
                        end
           | None => None
           end
-        else match perform r t (GInvoke q) with Some (r1, _) => fin r1 rest 0 same | None => None end
+        else
+          (* the source is runnable as soon as dispatch_activate has made it so, before the activating thread's return mark *)
+          let r0 := if activated g then Some r
+                    else match perform r t (GActivate orc_base) with
+                         | Some (r1, acts) => match acts with [] => Some r1 | _ => None end
+                         | None => None
+                         end in
+          match r0 with
+          | Some r0 => match perform r0 t (GInvoke q) with Some (r1, _) => fin r1 rest 0 same | None => None end
+          | None => None
+          end
     | RUnlock => match adv_unlock 24 t r with Some r1 => fin r1 rest 0 same | None => None end
     | RReadF v m =>
         if negb m then (if fl_is (fl (g_s g)) v then fin r rest 0 same else None)
         else if is_owner_t g t || (negb (t_api th =? API_CAW)) then
-          match adv 24 q i t (t_q th) r with Some (r1, q', n) => fin r1 q' (n - 1) same | None => None end
+          owner_obs
         else
           (* cancel_and_wait's wait loop: the load of source.c:1086 / 1097 *)
           match caw_enter_if_needed th r with
@@ -367,18 +403,19 @@ Definition exec (i : nat) (th : tst) (r : rst) : option rst :=
           | Some r0 =>
               match caw_steps 2 t false [1] r0 with
               | Some r1 =>
-                  if (cpc_code (cpc (r_g r1) t) =? 3) && fl_is (fl (g_s (r_g r1))) v then
+                  if negb (fl_is (fl (g_s (r_g r1))) v) then None
+                  else if cpc_code (cpc (r_g r1) t) =? 3 then
                     match perform r1 t (GCawStep false orc_base) with
                     | Some (r2, _) => fin r2 rest 0 (fun x => set_entered x true)
                     | None => None
                     end
-                  else None
+                  else fin r1 rest 0 (fun x => set_entered x true)   (* a wakeup's load (dispatch_activate inside the call) *)
               | None => None
               end
           end
     | ROrF old opnd =>
         if opnd =? DSF_CANCELED then
-          match perform r t (GCancel (ctx_of th)) with
+          match perform r t (GCancel (ctx_of g th)) with
           | Some (r1, _) => if fl_is (fl (g_s g)) old && fl_is (fl (g_s (r_g r1))) (Z.lor old opnd) then fin r1 rest 0 same else None
           | None => None
           end
@@ -392,7 +429,7 @@ Definition exec (i : nat) (th : tst) (r : rst) : option rst :=
     | RCaswF seen new ok =>
         if negb ok then (if fl_is (fl (g_s g)) seen then fin r rest 0 same else None)
         else if is_owner_t g t then
-          match adv 24 q i t (t_q th) r with Some (r1, q', n) => fin r1 q' (n - 1) same | None => None end
+          owner_obs
         else if is_commit (flags_set_and_clear_loop 0 DSF_DELETED (Z.lor DSF_NEEDS_EVENT DSF_CANCEL_WAITER) seen) new then
           (* a finalize outside the drain lock: activation of a cancelled source (dispatch_activate, or cancel_and_wait's) *)
           let try_act (a : act) (r0 : rst) :=
@@ -453,10 +490,10 @@ Definition exec (i : nat) (th : tst) (r : rst) : option rst :=
     | RFret rc =>
         if cpc_code (cpc g t) =? 6 then match perform r t GFutexRet with Some (r1, _) => fin r1 rest 0 same | None => None end
         else fin r rest 0 same
-    | RFwake => if is_owner_t g t then match adv 24 q i t (t_q th) r with Some (r1, q', n) => fin r1 q' (n - 1) same | None => None end else None
-    | RWu v =>
+    | RFwake => if is_owner_t g t then owner_obs else None
+    | RWu v uold =>
         if is_owner_t g t then
-          match adv 24 q i t (t_q th) r with Some (r1, q', n) => fin r1 q' (n - 1) same | None => None end
+          owner_obs
         else if negb (activated g) then
           (* registration at activation (source.c:674-691) *)
           match perform r t (GActivate (mkO false false true true false true true true)) with
@@ -468,36 +505,51 @@ Definition exec (i : nat) (th : tst) (r : rst) : option rst :=
           | None => None
           end
         else
-          (* the manager delivers an event: du_state update, then ds_pending_data *)
-          let '(w, a, nd) := du_bits v in
-          let '(q1, n) := pop_skips rest in
-          match q1 with
-          | RWp p :: q2 =>
-              if p =? 0 then None else
-              match perform r t (if nd then GHangup else GEvent a) with
-              | Some (r1, _) => if src_du_is (g_s (r_g r1)) v && pending (g_s (r_g r1)) then fin r1 q2 (n + 1) same else None
-              | None => None
-              end
-          | _ => None
-          end
+          (* the manager delivers an event: du_state update, then ds_pending_data; the event takes effect at the latter *)
+          if (uold =? -1) || src_du_is (g_s g) uold then fin r rest 0 (fun x => set_u x v) else None
     | RWp p =>
         if is_owner_t g t then
-          match adv 24 q i t (t_q th) r with Some (r1, q', n) => fin r1 q' (n - 1) same | None => None end
+          owner_obs
         else if p =? 0 then None
         else if t_mgr th then
-          match perform r t (GEvent (du_armed (g_s g))) with
-          | Some (r1, _) => if pending (g_s (r_g r1)) then fin r1 rest 0 same else None
-          | None => None
-          end
+          if t_u th =? -1 then
+            match perform r t (GEvent (karm (g_s g))) with
+            | Some (r1, _) => if pending (g_s (r_g r1)) then fin r1 rest 0 same else None
+            | None => None
+            end
+          else
+            let '(w, a, nd) := du_bits (t_u th) in
+            match perform r t (if nd then GHangup else GEvent a) with
+            | Some (r1, _) => if src_du_is (g_s (r_g r1)) (t_u th) && pending (g_s (r_g r1)) then fin r1 rest 0 (fun x => set_u x (-1)) else None
+            | None => None
+            end
         else match perform r t GMergeData with Some (r1, _) => fin r1 rest 0 same | None => None end
     | RXp _ | RXh _ _ =>
         if is_owner_t g t || (t_api th =? 0) then
-          match adv 24 q i t (t_q th) r with Some (r1, q', n) => fin r1 q' (n - 1) same | None => None end
+          owner_obs
         else None
     end
   end.
 
+(* the manager's next observation after a hang-up: _dispatch_source_merge_evt has run (second half of the delivery) *)
+Definition exec (i : nat) (th : tst) (r : rst) : option rst :=
+  if t_mgr th && m_hup (r_g r) then
+    match perform r (t_id th) GHangupMerge with
+    | Some (r1, acts) => match acts with [] => exec0 i th r1 | _ => None end
+    | None => None
+    end
+  else exec0 i th r.
+
 (* follow the order: one entry = one observation of that thread (entries already consumed ahead are credited) *)
+Definition at_anchor (i : nat) (th : tst) (r : rst) : option rst :=
+  match adv 24 (if t_mgr th then QMgr else QTarget) i (t_id th) (t_q th) r with
+  | Some (r1, q', n, _) =>
+      if t_base th <=? n then
+        Some (mkR (r_g r1) (upd_t (r_ts r1) i (fun x => set_wait (set_q x q' (n - t_base th)) 0 0)) (r_acts r1) (r_cfg r1))
+      else None
+  | None => None
+  end.
+
 Fixpoint sched (ord : list nat) (r : rst) (done : Z) : rst * Z * list nat :=
   match ord with
   | [] => (r, done, [])
@@ -506,7 +558,11 @@ Fixpoint sched (ord : list nat) (r : rst) (done : Z) : rst * Z * list nat :=
       | None => (r, done, ord)
       | Some th =>
           if 0 <? t_credit th then
-            sched ord' (mkR (r_g r) (upd_t (r_ts r) i (fun x => set_q x (t_q x) (-1))) (r_acts r)) (done + 1)
+            sched ord' (mkR (r_g r) (upd_t (r_ts r) i (fun x => set_q x (t_q x) (-1))) (r_acts r) (r_cfg r)) (done + 1)
+          else if 1 <? t_wait th then
+            sched ord' (mkR (r_g r) (upd_t (r_ts r) i (fun x => set_wait x (t_wait x - 1) (t_base x))) (r_acts r) (r_cfg r)) (done + 1)
+          else if t_wait th =? 1 then
+            match at_anchor i th r with Some r1 => sched ord' r1 (done + 1) | None => (r, done, ord) end
           else match exec i th r with
                | Some r1 => sched ord' r1 (done + 1)
                | None => (r, done, ord)
@@ -517,7 +573,7 @@ Fixpoint sched (ord : list nat) (r : rst) (done : Z) : rst * Z * list nat :=
 Definition obs_code (o : robs) : Z :=
   match o with
   | RLock => 1 | RUnlock => 2 | RReadF _ m => if m then 4 else 3 | ROrF _ _ => 5 | RAndF _ _ => 6 | RCaswF _ _ _ => 7
-  | RCasF _ _ _ => 8 | RWu _ => 9 | RXp _ => 10 | RWp _ => 11 | RXh _ _ => 12 | RFwait _ => 13 | RFret _ => 14 | RFwake => 15
+  | RCasF _ _ _ => 8 | RWu _ _ => 9 | RXp _ => 10 | RWp _ => 11 | RXh _ _ => 12 | RFwait _ => 13 | RFret _ => 14 | RFwake => 15
   | RCall _ _ => 16 | RRet _ => 17 | RCb _ => 18 | RCe _ => 19 | RSkip => 20 | RBad => 21
   end.
 
@@ -526,7 +582,11 @@ Definition implb' (a b : bool) : bool := negb a || b.
 Definition sinv_b (k : kind) (s : src) : bool :=
   implb' (deleted (fl s)) (negb (registered s) && negb (kreg s) && installed s && negb (waiter (fl s)) && negb (needs_event (fl s))) &&
   implb' (kreg s) (du_wlh s) && implb' (du_armed s || du_nd s) (du_wlh s) && implb' (du_wlh s) (installed s) &&
-  implb' (du_nd s) (kreg s) && implb' (k_timer k) (negb (du_nd s)).
+  implb' (du_nd s) (kreg s) && implb' (k_timer k) (negb (du_nd s)) && implb' (karm s) (kreg s).
+Definition hinv_b (g : gst) : bool :=
+  implb' (m_hup g) (registered (g_s g) && negb (k_direct (g_k g)) && negb (k_timer (g_k g)) &&
+                    match owner g with Some _ => negb (queue_eqb (o_q g) QMgr) | None => true end) &&
+  implb' (in_cd (o_pc g)) (k_direct (g_k g)).
 Definition opt_is_none {A} (o : option A) : bool := match o with None => true | Some _ => false end.
 Definition opc_is (p q : opc) : bool :=
   match p, q with OIdle, OIdle | OLatch, OLatch | OP3, OP3 => true | _, _ => false end.
@@ -555,14 +615,14 @@ Definition tinv_b (g : gst) (t : Z) : bool :=
   let s := g_s g in let f := fl s in
   implb' (negb (cpc_code (cpc g t) =? 0)) (negb (h_ca s) && canceled f) &&
   match cpc g t with
-  | CDecide o _ => implb' (deleted o) (deleted f)
+  | CDecide o n => implb' (deleted o) (deleted f) && implb' (negb (deleted o) && negb (k_direct (g_k g))) (waiter n)
   | CWTest d => implb' (deleted d) (deleted f)
   | CWFutex d => waiter d && negb (deleted d)
   | CRet => deleted f
   | _ => true
   end &&
   implb' (slp g t) ((cpc_code (cpc g t) =? 6) && waiter f && negb (deleted f)).
-Definition inv_b (tids : list Z) (g : gst) : bool := ginv_b g && forallb (tinv_b g) tids.
+Definition inv_b (tids : list Z) (g : gst) : bool := ginv_b g && hinv_b g && forallb (tinv_b g) tids.
 
 (* ------------------------------------------------------------------ the result the checker reads
    [observations consumed; observations left; index of the stuck thread or -1; code of its head observation or -1;
@@ -572,8 +632,8 @@ Definition inv_b (tids : list Z) (g : gst) : bool := ginv_b g && forallb (tinv_b
 Definition b (x : bool) : Z := if x then 1 else 0.
 Definition replay (k : kind) (ev ca rg : bool) (ts : list tst) (ord : list nat) : list Z :=
   let g0 := init_state k ev ca rg in
-  let '(r, done, rest) := sched ord (mkR g0 ts []) 0 in
-  let acts := rev (r_acts r) in
+  let '(r, done, rest) := sched ord (mkR g0 ts [] (k_timer k)) 0 in
+  let acts := rev (r_acts r) ++ (if m_hup (r_g r) then [(0, GHangupMerge)] else []) in
   let stuck := match rest with i :: _ => Z.of_nat i | [] => -1 end in
   let code := match rest with
               | i :: _ => match nth_error (r_ts r) i with Some th => match t_q th with h :: _ => obs_code h | [] => 0 end | None => -1 end
